@@ -1,0 +1,252 @@
+//go:build verif
+
+// Contracts for package module, read by /verif/engine (govc).  Comment-only.
+
+package module
+
+//@ # ---------- character classes (documented sets) ----------
+//@ spec func lower(c int) bool = c >= 97 && c <= 122
+//@ spec func upper(c int) bool = c >= 65 && c <= 90
+//@ spec func digit(c int) bool = c >= 48 && c <= 57
+//@ # first path element: lower-case ASCII letters, digits, dots, dashes
+//@ spec func FIRSTOK(r int) bool = r == '-' || r == '.' || digit(r) || lower(r)
+//@ # module path element: ASCII letters, digits, and - . _ ~
+//@ spec func MODOK(r int) bool = r == '-' || r == '.' || r == '_' || r == '~' || digit(r) || upper(r) || lower(r)
+//@ # import path element: the same plus '+'
+//@ spec func IMPOK(r int) bool = MODOK(r) || r == '+'
+//@ # file name: Unicode letters, ASCII digits, space and !#$%&()+,-.=@[]^_{}~
+//@ spec func FILEPUNCT(r int) bool = r == '!' || r == '#' || r == '$' || r == '%' || r == '&' || r == '(' || r == ')' || r == '+' || r == ','
+//@     || r == '-' || r == '.' || r == '=' || r == '@' || r == '[' || r == ']' || r == '^' || r == '_' || r == '{' || r == '}' || r == '~' || r == ' '
+//@ spec func FILEOK(r int) bool = if r < 128 then digit(r) || upper(r) || lower(r) || FILEPUNCT(r) else unicode.IsLetter(r)
+
+//@ func firstPathOK
+//@   pure
+//@   ensures result == FIRSTOK(r)
+//@   props C06
+
+//@ func modPathOK
+//@   pure
+//@   ensures result == MODOK(r)
+//@   props C06
+
+//@ func importPathOK
+//@   pure
+//@   ensures result == IMPOK(r)
+//@   props C06
+
+//@ func fileNameOK
+//@   pure
+//@   requires 0 <= r
+//@   ensures result == FILEOK(r)
+//@   props C06
+
+//@ # ---------- path elements ----------
+//@ # kinds: 0 module path, 1 import path, 2 file path
+//@ spec func CHAROK(r int, kind int) bool = if kind == 0 then MODOK(r) else if kind == 1 then IMPOK(r) else FILEOK(r)
+//@ # every character (rune) of s from byte offset p on is allowed for the kind
+//@ spec func CHARSOK(s string, p int, kind int) bool =
+//@     if p >= len(s) || p < 0 then true else CHAROK(runeat(s, p), kind) && CHARSOK(s, p + runesz(s, p), kind)
+//@ # "the element prefix up to the first dot"
+//@ spec func SHORTOF(e string) string = if strings.Index(e, ".") >= 0 then e[:strings.Index(e, ".")] else e
+//@ # reserved file names on Windows, regardless of case
+//@ spec func RESERVED(s string) bool =
+//@     strings.EqualFold("CON", s) || strings.EqualFold("PRN", s) || strings.EqualFold("AUX", s) || strings.EqualFold("NUL", s)
+//@     || strings.EqualFold("COM1", s) || strings.EqualFold("COM2", s) || strings.EqualFold("COM3", s) || strings.EqualFold("COM4", s)
+//@     || strings.EqualFold("COM5", s) || strings.EqualFold("COM6", s) || strings.EqualFold("COM7", s) || strings.EqualFold("COM8", s)
+//@     || strings.EqualFold("COM9", s) || strings.EqualFold("LPT1", s) || strings.EqualFold("LPT2", s) || strings.EqualFold("LPT3", s)
+//@     || strings.EqualFold("LPT4", s) || strings.EqualFold("LPT5", s) || strings.EqualFold("LPT6", s) || strings.EqualFold("LPT7", s)
+//@     || strings.EqualFold("LPT8", s) || strings.EqualFold("LPT9", s)
+//@ spec func alldigits(s string, a int, b int) bool = forall k int :: a <= k && k < b ==> digit(s[k])
+//@ # looks like a Windows short-name: ends in a tilde followed by one or more ASCII digits
+//@ spec func TILDEDIGITS(s string) bool = exists t int :: 0 <= t && t < len(s) - 1 && s[t] == '~' && alldigits(s, t+1, len(s))
+//@ spec func ALLDOTS(e string) bool = forall k int :: 0 <= k && k < len(e) ==> e[k] == '.'
+//@ # a valid path element as implemented (the documented rules with the short-name rule applied to the prefix before the first dot)
+//@ spec func ELEMOK(e string, kind int) bool =
+//@     e != "" && !ALLDOTS(e) && (kind == 0 ==> e[0] != '.') && e[len(e)-1] != '.'
+//@     && CHARSOK(e, 0, kind) && !RESERVED(SHORTOF(e)) && (kind != 2 ==> !TILDEDIGITS(SHORTOF(e)))
+
+//@ func checkElem
+//@   requires 0 <= kind && kind <= 2
+//@   ensures (result == nil) == ELEMOK(elem, kind)
+//@   loop 0:
+//@     invariant 0 <= @pos && @pos <= len(elem)
+//@     invariant CHARSOK(elem, 0, kind) == CHARSOK(elem, @pos, kind)
+//@     decreases len(elem) - @pos
+//@   loop 1:
+//@     invariant 0 - 1 <= @idx && @idx < len(badWindowsNames)
+//@     invariant forall j int :: 0 <= j && j <= @idx ==> !strings.EqualFold(badWindowsNames[j], short)
+//@     decreases len(badWindowsNames) - @idx
+//@   loop 2:
+//@     invariant 0 <= @pos && @pos <= len(suffix) && suffixIsDigits
+//@     invariant alldigits(suffix, 0, @pos)
+//@     decreases len(suffix) - @pos
+//@   props C06
+
+//@ # ---------- whole paths ----------
+//@ # p[a:b] is a complete slash-separated element of p
+//@ spec func ELEMAT(p string, a int, b int) bool =
+//@     0 <= a && a <= b && b <= len(p) && (a == 0 || p[a-1] == '/') && (b == len(p) || p[b] == '/')
+//@     && (forall k int :: a <= k && k < b ==> p[k] != '/')
+//@ # valid UTF-8, non-empty, no leading dash (except file paths), no "//", no trailing slash, every element valid
+//@ spec func PATHOK(p string, kind int) bool =
+//@     utf8.ValidString(p) && p != "" && (kind != 2 ==> p[0] != '-') && !strings.Contains(p, "//") && p[len(p)-1] != '/'
+//@     && (forall a int, b int {p[a:b]} :: ELEMAT(p, a, b) ==> ELEMOK(p[a:b], kind))
+
+//@ func checkPath
+//@   requires 0 <= kind && kind <= 2
+//@   ensures (result == nil) == PATHOK(path, kind)
+//@   loop 0:
+//@     invariant 0 <= elemStart && elemStart <= @pos && @pos <= len(path)
+//@     invariant elemStart == 0 || path[elemStart-1] == '/'
+//@     invariant forall k int :: elemStart <= k && k < @pos ==> path[k] != '/'
+//@     invariant forall a int, b int {path[a:b]} :: ELEMAT(path, a, b) && b < elemStart ==> ELEMOK(path[a:b], kind)
+//@     decreases len(path) - @pos
+//@   props C06
+
+//@ func CheckImportPath
+//@   ensures (result == nil) == PATHOK(path, 1)
+//@   props C06
+
+//@ func CheckFilePath
+//@   ensures (result == nil) == PATHOK(path, 2)
+//@   props C06
+
+//@ # ---------- major-version suffixes ----------
+//@ # start of the trailing run of ASCII digits and dots of p[:n]
+//@ spec func trail(p string, n int) int = if n > 0 && n <= len(p) && (digit(p[n-1]) || p[n-1] == '.') then trail(p, n-1) else n
+//@ # start of the trailing run of ASCII digits of p[:n]
+//@ spec func dtrail(p string, n int) int = if n > 0 && n <= len(p) && digit(p[n-1]) then dtrail(p, n-1) else n
+//@ spec func nodots(p string, a int, b int) bool = forall k int :: a <= k && k < b ==> p[k] != '.'
+//@ # a final element of the form /vN where N looks numeric (digits and dots)
+//@ spec func HASVN(p string) bool = trail(p, len(p)) >= 2 && trail(p, len(p)) < len(p) && p[trail(p, len(p))-1] == 'v' && p[trail(p, len(p))-2] == '/'
+//@ # ... N must not begin with a leading zero, must not be 1, must not contain dots
+//@ spec func VNOK(p string) bool = nodots(p, trail(p, len(p)), len(p)) && p[trail(p, len(p))] != '0' && p[trail(p, len(p))-2:] != "/v1"
+//@ # gopkg.in: must end in .vN or .vN-unstable, N without leading zeros (".v0" allowed)
+//@ spec func GEND(p string) int = if strings.HasSuffix(p, "-unstable") then len(p) - 9 else len(p)
+//@ spec func GI(p string) int = dtrail(p, GEND(p))
+//@ spec func GOPKGOK(p string) bool =
+//@     GI(p) >= 2 && p[GI(p)-1] == 'v' && p[GI(p)-2] == '.' && len(p) - (GI(p)-2) > 2 && (p[GI(p)] != '0' || p[GI(p)-2:] == ".v0")
+
+//@ lemma trail_bounds(p string, n int)
+//@   requires 0 <= n && n <= len(p)
+//@   ensures 0 <= trail(p, n) && trail(p, n) <= n
+//@   ensures forall k int :: trail(p, n) <= k && k < n ==> digit(p[k]) || p[k] == '.'
+//@   ensures trail(p, n) == 0 || !(digit(p[trail(p, n)-1]) || p[trail(p, n)-1] == '.')
+//@   induction n
+//@   trigger trail(p, n)
+//@   props C06
+
+//@ lemma dtrail_bounds(p string, n int)
+//@   requires 0 <= n && n <= len(p)
+//@   ensures 0 <= dtrail(p, n) && dtrail(p, n) <= n
+//@   ensures forall k int :: dtrail(p, n) <= k && k < n ==> digit(p[k])
+//@   ensures dtrail(p, n) == 0 || !digit(p[dtrail(p, n)-1])
+//@   induction n
+//@   trigger dtrail(p, n)
+//@   props C06
+
+//@ func splitGopkgIn
+//@   pure
+//@   ensures prefix + pathMajor == path
+//@   ensures ok == (strings.HasPrefix(path, "gopkg.in/") && GOPKGOK(path))
+//@   ensures ok ==> prefix == path[:GI(path)-2] && pathMajor == path[GI(path)-2:]
+//@   ensures !ok ==> prefix == path && pathMajor == ""
+//@   loop 0:
+//@     invariant 0 <= i && i <= GEND(path) && GEND(path) <= len(path)
+//@     invariant dtrail(path, GEND(path)) == dtrail(path, i)
+//@     decreases i
+//@   uses dtrail_bounds
+//@   props C06
+
+//@ func SplitPathVersion
+//@   pure
+//@   ensures prefix + pathMajor == path
+//@   ensures strings.HasPrefix(path, "gopkg.in/") ==> ok == GOPKGOK(path) && (ok ==> pathMajor == path[GI(path)-2:]) && (!ok ==> pathMajor == "")
+//@   ensures !strings.HasPrefix(path, "gopkg.in/") ==> ok == (!HASVN(path) || VNOK(path))
+//@   ensures !strings.HasPrefix(path, "gopkg.in/") ==> pathMajor == (if HASVN(path) && VNOK(path) then path[trail(path, len(path))-2:] else "")
+//@   loop 0:
+//@     invariant 0 <= i && i <= len(path)
+//@     invariant trail(path, len(path)) == trail(path, i)
+//@     invariant dot == !nodots(path, i, len(path))
+//@     decreases i
+//@   uses trail_bounds
+//@   props C06
+
+//@ # ---------- module paths ----------
+//@ spec func FIRSTEND(p string) int = if strings.Index(p, "/") >= 0 then strings.Index(p, "/") else len(p)
+//@ # a valid import path whose first element is a lower-case LDH domain name with a dot and no leading dash,
+//@ # and whose /vN (or gopkg.in .vN) suffix follows the conventions
+//@ spec func MODPATHOK(p string) bool =
+//@     PATHOK(p, 0) && FIRSTEND(p) != 0 && strings.Contains(p[:FIRSTEND(p)], ".") && p[0] != '-'
+//@     && (forall k int :: 0 <= k && k < FIRSTEND(p) ==> FIRSTOK(p[k]))
+//@     && SplitPathVersion_r2(p)
+
+//@ func CheckPath$1
+//@   modifies err
+//@   allocates
+//@   ensures (err == nil) == (old(err) == nil)
+//@   props C06
+
+//@ func CheckPath
+//@   ensures (err == nil) == MODPATHOK(path)
+//@   loop 0:
+//@     invariant 0 <= @pos && @pos <= i
+//@     invariant forall k int :: 0 <= k && k < @pos ==> FIRSTOK(path[k])
+//@     decreases i - @pos
+//@   props C06
+
+//@ # ---------- path/version agreement ----------
+//@ spec func PMNORM(pm string) string = if strings.HasPrefix(pm, ".v") && strings.HasSuffix(pm, "-unstable") then strings.TrimSuffix(pm, "-unstable") else pm
+//@ spec func MAJORMATCH(v string, pm string) bool =
+//@     (strings.HasPrefix(v, "v0.0.0-") && PMNORM(pm) == ".v1")
+//@     || (PMNORM(pm) == "" && (semver.Major(v) == "v0" || semver.Major(v) == "v1" || semver.Build(v) == "+incompatible"))
+//@     || (PMNORM(pm) != "" && (PMNORM(pm)[0] == '/' || PMNORM(pm)[0] == '.') && semver.Major(v) == PMNORM(pm)[1:])
+
+//@ func CheckPathMajor
+//@   ensures (result == nil) == MAJORMATCH(v, pathMajor)
+//@   props C06
+
+//@ func MatchPathMajor
+//@   ensures result == MAJORMATCH(v, pathMajor)
+//@   props C06
+
+//@ func PathMajorPrefix
+//@   requires pathMajor == "" || ((pathMajor[0] == '/' || pathMajor[0] == '.') && PMNORM(pathMajor)[1:] == semver.Major(PMNORM(pathMajor)[1:]))
+//@   ensures result == (if pathMajor == "" then "" else PMNORM(pathMajor)[1:])
+//@   props C06
+
+//@ func Check
+//@   ensures (result == nil) == (MODPATHOK(path) && semver.IsValid(version) && MAJORMATCH(version, SplitPathVersion_r1(path)))
+//@   props C06
+
+//@ func CanonicalVersion
+//@   pure
+//@   ensures result == (if semver.Build(v) == "+incompatible" then semver.Canonical(v) + "+incompatible" else semver.Canonical(v))
+//@   props C06 C04
+
+//@ # ---------- kinds are nested: module path => import path => file path ----------
+//@ lemma chars_mono(s string, p int, k1 int, k2 int)
+//@   requires 0 <= p && 0 <= k1 && k1 <= k2 && k2 <= 2 && CHARSOK(s, p, k1)
+//@   ensures CHARSOK(s, p, k2)
+//@   induction len(s) - p
+//@   trigger CHARSOK(s, p, k1), CHARSOK(s, p, k2)
+//@   props C06
+
+//@ lemma elem_mono(e string, k1 int, k2 int)
+//@   requires 0 <= k1 && k1 <= k2 && k2 <= 2 && ELEMOK(e, k1)
+//@   ensures ELEMOK(e, k2)
+//@   uses chars_mono
+//@   props C06
+
+//@ lemma path_mono(p string, k1 int, k2 int)
+//@   requires 0 <= k1 && k1 <= k2 && k2 <= 2 && PATHOK(p, k1)
+//@   ensures PATHOK(p, k2)
+//@   uses elem_mono
+//@   props C06
+
+//@ # ---------- documented element rules that the implementation does not follow (known findings) ----------
+//@ spec func HASDOTDOT(e string) bool = exists k int :: 0 <= k && k + 1 < len(e) && e[k] == '.' && e[k+1] == '.'
+//@ func checkElem
+//@   ensures [C06, known F_C06a] doc_nodotdot: result == nil && kind != 2 ==> !HASDOTDOT(elem)
+//@   ensures [C06, known F_C06b] doc_shortname_sound: result == nil && kind != 2 ==> !TILDEDIGITS(elem)
+//@   ensures [C06, known F_C06b] doc_shortname_complete: kind != 2 && ELEMOK(elem, 2) && CHARSOK(elem, 0, kind) && (kind == 0 ==> elem[0] != '.') && !TILDEDIGITS(elem) ==> result == nil
